@@ -5,7 +5,7 @@ MODULE = "StorageModel.Properties.C07"
 THEOREMS = ["table_is_expected", "delivery_is_expected", "holder_plumbing_is_expected", "raised_only_grows", "op_error_surfaces",
             "op_failure_kind_surfaces", "no_false_success", "no_false_success_any_fault", "tx_atomic",
             "tx_error_surfaces", "caller_error_surfaces", "first_run_error_surfaces", "pre_commit_error_surfaces",
-            "rejected_operation_surfaces", "tx_raised_surfaces", "tx_no_false_success", "history_refines_spec"]
+            "rejected_operation_surfaces", "rejected_link_step_surfaces", "tx_raised_surfaces", "tx_no_false_success", "history_refines_spec"]
 
 TABLE_OBLIGATIONS = [
     "table_is_expected (Generated/CrudReturns.lean: return paths of Create/Update/DeleteById/DeleteWhere, processDeleteConstraints, fireParentEvent, fireEvents, processPreCommit regenerated from boltz/store_crud.go and boltz/store.go)",
@@ -34,7 +34,8 @@ RULE = ("histories of 1-4 transactions (Db.Update / Db.Batch, fresh or reused Mu
         "flow as plain error or RecordNotFoundError, index-stage veto by a custom boltz.Constraint registered with "
         "AddConstraint on the parent or on the child store in ProcessBeforeUpdate / ProcessAfterUpdate / "
         "ProcessBeforeDelete as plain error or RecordNotFoundError, injected FillEntity / PersistEntity error at "
-        "the n-th call, an error / entity-constraint veto that strikes only the first time the transaction function runs "
+        "the n-th call, linked ids (SetLinkedIds) naming a target the linked store does not have, AddLinks / SetLinks "
+        "of the transaction function with a missing target or on a missing entity, an error / entity-constraint veto that strikes only the first time the transaction function runs "
         "(a Db.Batch then commits on bbolt's re-run), a tags map value the typed-bucket setters reject - unsupported type at depth 0/1/2, []string in a "
         "list, empty / over-long key - with nothing injected, unparsable query) x Update and Batch, exhaustively; thorough tier also every body of two "
         "operations x every position x every kind; (b) sampled bodies of 2-5 operations with one failure at a "
